@@ -1063,6 +1063,14 @@ def oracle(case, res, limit=6):
                 if fail("%s of object %d is %s but the current composition gives %s" % (
                         op[2][0], op[1], json.dumps(got)[:300], json.dumps(exp)[:300]), classes, i):
                     break
+            ws = r.get("with_shadow")
+            if ws is not None:
+                if "ok" in ws:
+                    ws = {"ok": norm_answer(op[2], ws["ok"])}
+                if ws != got:
+                    if fail("%s of object %d is %s in the plain history but %s when unrelated deep copies were made and thawed "
+                            "between the operations" % (op[2][0], op[1], json.dumps(got)[:300], json.dumps(ws)[:300]), classes, i):
+                        break
             sh = r.get("shadow", {})
             sh = {"ok": norm_answer(op[2], sh["ok"])} if "ok" in sh else sh
             if sh != exp:
